@@ -61,6 +61,9 @@ def corpus():
                  'par_ts': 1, 'run': [6], 'bystander': True})
     base.append({'kind': 'shutdown', 'ends': 2, 'last_forced': True, 'kill': 'delete', 'kill_at': 2,
                  'par_ts': 3, 'run': [4]})
+    # F37: parallel daughters (timestep 5) in flight when the next structural update rebuilds the views
+    base.append({'kind': 'shutdown', 'ends': 1, 'last_forced': True, 'kill': 'divide', 'kill_at': 1,
+                 'par_ts': 5, 'run': [7], 'second_change': True})
     # a parallel step declared through `processes`; quantities crossing the pipe
     base.append({'kind': 'shutdown', 'ends': 1, 'last_forced': True, 'kill': None, 'kill_at': 0,
                  'par_ts': 1, 'run': [3], 'legacy_step': True, 'units': True})
@@ -91,7 +94,7 @@ def generate(rng, n, tier):
                         'kill_at': rng.choice([1, 2, 3]), 'par_ts': rng.choice([1, 2, 3, 4, 5]),
                         'sleep': rng.choice([0.0, 0.0, 0.3]), 'killer_first': rng.random() < 0.5,
                         'bystander': rng.random() < 0.4, 'legacy_step': rng.random() < 0.3,
-                        'units': rng.random() < 0.3,
+                        'units': rng.random() < 0.3, 'second_change': rng.random() < 0.4,
                         'run': [rng.choice([2, 3, 4, 5]) for _ in range(rng.choice([1, 2]))]})
     return out
 
@@ -148,6 +151,11 @@ def _shutdown_run(case, obs):
         if killer is not None and not case.get('killer_first'):
             processes['killer'] = killer
             topology['killer'] = {'agents': ('agents',)}
+        if killer is not None and case.get('second_change'):
+            # one tick later another structural update: parallel processes created by the first one (daughters of
+            # the division) are in flight when the views are rebuilt (F37)
+            processes['killer2'] = Killer({'at': case['kill_at'] + 1, 'mode': 'delete', 'target': 'other'})
+            topology['killer2'] = {'agents': ('agents',)}
         eng = Engine(processes=processes, topology=topology, emitter={'type': 'null'},
                      display_info=False, progress_bar=False)
         for i, iv in enumerate(case['run']):
